@@ -180,6 +180,22 @@ def observe(args):
             o['export_eq_hard'] = y is not None and ye.shape == y.shape and bool(torch.equal(ye, y))
         elif e is not None:
             o['export_eq_hard'] = False
+        # repeated export: the CALLER modifies the network export() returned (replaces one of its layers, adds an attribute), then
+        # exports again with the same coefficients: the second result must again be the network of the SuperNet
+        if st.get('reexport') and e is not None and o.get('tree'):
+            try:
+                victim = o['tree'][0][0]
+                parent = e.get_submodule(victim.rsplit('.', 1)[0]) if '.' in victim else e
+                setattr(parent, victim.rsplit('.', 1)[-1], torch.nn.Identity())
+                e.caller_added_head = torch.nn.Linear(2, 2)
+                e2 = sn.export()
+                with torch.no_grad():
+                    y2 = e2.eval()(x)
+                o['re'] = {'same_object': e2 is e, 'eq_ref': y2.shape == ref.shape and bool(torch.equal(y2, ref)),
+                           'tree': sorted((n_, type(mod).__name__) for n_, mod in e2.named_modules() if n_ and len(list(mod.children())) == 0),
+                           'victim': victim, 'exc': None}
+            except Exception as ex_:  # noqa
+                o['re'] = {'exc': 'EXC:%s:%s' % (type(ex_).__name__, str(ex_)[:160])}
         # the user's model itself must not have been altered by export
         o['seed_untouched'] = all(bool(torch.equal(v, orig_params[k])) for k, v in m.state_dict().items() if not k.endswith('sn_combiner.alpha'))
         out['obs'].append(o)
@@ -214,7 +230,7 @@ def settings_for(rng, d, quick):
         sts.append({'alphas': alphas, 'how': rng.choice(['update', 'attr']), 'temp': rng.choice([None, None, 0.05, 0.5, 5.0, 20.0]),
                     'export_train': rng.random() < 0.35, 'export_first': rng.random() < 0.25,
                     'write': rng.choice(G.WRITE_METHODS), 'grad': rng.random() < 0.3, 'frozen': rng.random() < 0.4,
-                    'mixed': rng.choice([None, None, None, 'frozen', 'frozen', 'one-train'])})
+                    'mixed': rng.choice([None, None, None, 'frozen', 'frozen', 'one-train']), 'reexport': rng.random() < 0.3})
     if rng.random() < 0.5:   # the initial uniform coefficients (all equal: winner 0)
         sts.append({'alphas': [[1.0 / k] * k for k in nbr], 'how': 'update', 'temp': None})
     if all(b['hard'] for b in d['blocks']):
@@ -245,6 +261,156 @@ def neartie_settings(rng, d):
     return sts
 
 
+# ---------------------------------------------------------------- dedicated streams of the two OPEN findings (every run, both tiers)
+KEY_ALIAS = 'export-differs-from-hard-eval:identity-winner-aliases-block-input'
+KEY_STMT = 'export-differs-from-hard-eval:statement-level-inplace-op-dropped'
+
+
+def special_specs():
+    """(i) 'alias': SuperNetModule with an nn.Identity branch, followed by nn.ReLU(inplace=True), block input used again (skip);
+    (ii) 'stmt': an in-place op written as a statement with unused result (y.clamp_(min=0)) inside a branch / outside the blocks.
+    Every winner combination of every variant."""
+    out = []
+    for variant, nbr in (('id-last', [2]), ('id-first', [3]), ('two-blocks', [2, 2])):
+        for win in itertools.product(*[range(k) for k in nbr]):
+            out.append({'kind': 'alias', 'variant': variant, 'winners': list(win)})
+    for variant in ('branch', 'fixed', 'both'):
+        for w in range(2):
+            out.append({'kind': 'stmt', 'variant': variant, 'winners': [w]})
+    return out
+
+
+def build_special(spec, torch):
+    import torch.nn as nn
+    from plinio.methods.supernet import SuperNetModule
+    torch.manual_seed(1234)
+    kind, variant = spec['kind'], spec['variant']
+    if kind == 'alias':
+        def block(idpos, k):
+            brs = [nn.Conv2d(4, 4, 3, padding=1) if j % 2 == 0 else nn.Conv2d(4, 4, 1) for j in range(k)]
+            brs[idpos] = nn.Identity()
+            return SuperNetModule(brs), idpos
+
+        class Net(nn.Module):
+            def __init__(self):
+                super().__init__()
+                self.stem = nn.Conv2d(3, 4, 3, padding=1)
+                cfg = {'id-last': [(1, 2)], 'id-first': [(0, 3)], 'two-blocks': [(1, 2), (0, 2)]}[variant]
+                self.idpos = []
+                for i, (ip, k) in enumerate(cfg):
+                    b, _ = block(ip, k)
+                    setattr(self, 'blk%d' % i, b)
+                    setattr(self, 'act%d' % i, nn.ReLU(inplace=True))
+                    self.idpos.append(ip)
+                self.nb = len(cfg)
+                self.head = nn.Conv2d(4, 2, 1)
+
+            def forward(self, x):
+                t = self.stem(x)
+                for i in range(self.nb):
+                    y = getattr(self, 'act%d' % i)(getattr(self, 'blk%d' % i)(t))
+                    t = y + t              # skip connection: the block input is used again after the in-place layer
+                return self.head(t)
+        m = Net()
+        risky = any(spec['winners'][i] == m.idpos[i] for i in range(m.nb))      # an Identity branch wins
+    else:
+        class Br(nn.Module):
+            def __init__(self, stmt):
+                super().__init__()
+                self.c = nn.Conv2d(4, 4, 3, padding=1)
+                self.stmt = stmt
+
+            def forward(self, x):
+                y = self.c(x)
+                if self.stmt:
+                    y.clamp_(min=0)        # in-place op written as a statement, result unused
+                return y
+
+        class Net(nn.Module):
+            def __init__(self):
+                super().__init__()
+                self.stem = nn.Conv2d(3, 4, 3, padding=1)
+                self.blk0 = SuperNetModule([Br(variant in ('branch', 'both')), nn.Conv2d(4, 4, 1)])
+                self.head = nn.Conv2d(4, 2, 1)
+                self.nb = 1
+
+            def forward(self, x):
+                t = self.stem(x)
+                if variant in ('fixed', 'both'):
+                    t.clamp_(min=0)        # outside the choice blocks
+                return self.head(self.blk0(t))
+        m = Net()
+        risky = variant in ('fixed', 'both') or (variant == 'branch' and spec['winners'][0] == 0)
+    x = torch.randn(2, 3, 6, 6)
+    return m, x, risky
+
+
+def observe_special(spec):
+    torch = setup_torch()
+    from plinio.methods import SuperNet
+    m, x, risky = build_special(spec, torch)
+    o = {'risky': risky, 'exc': None}
+    try:
+        sn = SuperNet(m, input_shape=(3, 6, 6))
+    except Exception as e:  # noqa
+        o['exc'] = 'import:EXC:%s:%s' % (type(e).__name__, str(e)[:160])
+        return o
+    sn.eval()
+    sn.update_softmax_options(hard=True)
+    with torch.no_grad():
+        for i, w in enumerate(spec['winners']):
+            c = sn.seed.get_submodule('blk%d.sn_combiner' % i)
+            a = torch.linspace(-1.0, -0.5, c.n_branches)
+            a[w] = 1.0
+            c.alpha.copy_(a)
+        o['win_impl'] = [sn.seed.get_submodule('blk%d.sn_combiner' % i).best_layer_index() for i in range(len(spec['winners']))]
+        y = sn(x)
+        try:
+            e = sn.export()
+            ye = e.eval()(x)
+        except Exception as ex_:  # noqa
+            o['exc'] = 'EXC:%s:%s' % (type(ex_).__name__, str(ex_)[:160])
+            return o
+    o['equal'] = ye.shape == y.shape and bool(torch.equal(ye, y))
+    o['maxdiff'] = float((ye - y).abs().max()) if ye.shape == y.shape else None
+    o['tree'] = sorted(n for n, mod in e.named_modules() if n and len(list(mod.children())) == 0)
+    exp = []
+    for n, mod in m.named_modules():
+        if not n or len(list(mod.children())) or 'sn_combiner' in n:
+            continue
+        parts = n.split('.')
+        if 'sn_branches' in parts:
+            b = int(parts[0][3:])
+            if int(parts[parts.index('sn_branches') + 1]) != spec['winners'][b]:
+                continue
+        exp.append(n)
+    o['exp_tree'] = sorted(exp)
+    return o
+
+
+def check_special(spec, o, fails):
+    info = {'special': spec, 'observed': o}
+
+    def bad(key, what):
+        fails.append((key, dict(info, what=what)))
+    if o.get('exc'):
+        bad('export-raises', '%s network %r winners %r: %s' % (spec['kind'], spec['variant'], spec['winners'], o['exc']))
+        return
+    if o['win_impl'] != spec['winners']:
+        bad('winner-not-argmax', 'best_layer_index %r != arg-max %r' % (o['win_impl'], spec['winners']))
+    if o['tree'] != o['exp_tree']:
+        bad('exported-tree-wrong', 'leaf modules of the exported network %r, expected %r' % (o['tree'], o['exp_tree']))
+    if not o['equal']:
+        if o['risky'] and spec['kind'] == 'alias':
+            bad(KEY_ALIAS, 'network %r, winners %r (an nn.Identity branch wins, nn.ReLU(inplace=True) follows, the block input is used again): max |exported(x) - SuperNet(x) hard| = %r'
+                % (spec['variant'], spec['winners'], o['maxdiff']))
+        elif o['risky'] and spec['kind'] == 'stmt':
+            bad(KEY_STMT, 'network with y.clamp_(min=0) written as a statement (%s), winners %r: max |exported(x) - SuperNet(x) hard| = %r'
+                % (spec['variant'], spec['winners'], o['maxdiff']))
+        else:
+            bad('export-differs-from-hard-eval', '%s network %r winners %r: exported(x) != SuperNet(x) with hard selection (max abs difference %r)' % (spec['kind'], spec['variant'], spec['winners'], o['maxdiff']))
+
+
 def check_obs(d, st, o, fails, tag):
     """the sentences of the property on one observation; appends (key, info)"""
     nbr = [len(b['branches']) for b in d['blocks']]
@@ -252,7 +418,7 @@ def check_obs(d, st, o, fails, tag):
     used = sorted({it[1] for it in d['chain'] if it[0] == 'block'})
     fnwin = any(d['blocks'][b]['branches'][win[b]]['fn'] is not None for b in used)
     suffix = ':winning-branch-ends-in-functional-op' if fnwin else ''
-    info = {'desc': strip(d), 'setting': st, 'winners': win, 'n_branches': nbr, 'observed': {k: v for k, v in o.items() if k not in ('seq', 'tree', 'param_names', 'exp_param_names', 'executed')}, 'tag': tag}
+    info = {'desc': strip(d), 'setting': st, 'winners': win, 'n_branches': nbr, 'observed': {k: v for k, v in o.items() if k not in ('seq', 'tree', 'param_names', 'exp_param_names', 'executed', 're')}, 'tag': tag}
 
     def bad(key, what):
         fails.append((key, dict(info, what=what)))
@@ -286,6 +452,13 @@ def check_obs(d, st, o, fails, tag):
     graph_mods = [t[1] for t in o['seq'] if t[0] == 'M']
     if any(n not in exp_names for n in graph_mods):
         bad('exported-graph-has-losing-nodes' + suffix, 'the exported fx graph still calls modules of losing branches: %r' % sorted(set(n for n in graph_mods if n not in exp_names)))
+    if o.get('re') is not None:
+        re_ = o['re']
+        if re_.get('exc'):
+            bad('re-export-raises', 'export() called again after the caller modified the first exported network: %s' % re_['exc'])
+        elif not re_['eq_ref'] or [tuple(t) for t in re_['tree']] != exp_tree:
+            bad('re-export-returns-modified-network', 'export(); the caller replaces layer %r of the result by nn.Identity() and adds an attribute; export() again (same coefficients) returns %s whose leaf modules are %r (expected %r), output equal to the reference: %s'
+                % (re_['victim'], 'the SAME object' if re_['same_object'] else 'a network', re_['tree'], exp_tree, re_['eq_ref']))
     if o['has_combiner']:
         bad('combiner-left-in-export', 'a SuperNetCombiner is still in the exported module tree')
     msfx = (':mixed-module-modes' if st.get('mixed') else '')
@@ -315,6 +488,8 @@ def run(ctx):
                 'update_softmax_options(hard=True) or the hard_softmax attribute, temperatures {1,.05,.5,5,20}; ALL winner combinations when every block has <= 4 branches, otherwise '
                 'sampled combinations that always include winners 1, 10, 11 and every branch ending in a functional op; one case = (network, coefficients); '
                 'coefficients written by no_grad copy_ / .data = / .data.copy_ / .data[i] = / a new nn.Parameter, AFTER the forward pass of the previous case on the same wrapper; hard forward under no_grad or with autograd, train_selection frozen or not; '
+                'two hand-written streams for the open findings, all winner combinations (Identity winner + in-place ReLU + skip; statement-level y.clamp_() in a branch / outside the blocks); '
+                '30% of the cases export twice with the caller replacing a layer of the first result in between (the second result must again be the SuperNet\'s network); user branches contain IN-PLACE functional / method ops (F.relu(inplace=True), clamp_) and weight tying between distinct layers; '
                 'one case in two sets MIXED per-module modes before export() (train wrapper with every BatchNorm and combiner in eval = frozen BN; eval wrapper with one BatchNorm in train): .training of every module, the whole state_dict and the exported output run as returned are compared with the values just before export(); '
                 'every third network is BUILT with hard_softmax=True on every block (with and without gumbel_softmax) and evaluated before any option call; '
                 'BatchNorm2d among the fixed layers and inside branches; export() called in eval and (35%) in train mode, before or after the hard forward, with a bitwise fingerprint of the whole SuperNet state_dict around it and the reference output taken before; '
@@ -354,6 +529,8 @@ def run(ctx):
     from concurrent.futures import ProcessPoolExecutor
     with ProcessPoolExecutor(min(NPROC, 12)) as ex:
         results = list(ex.map(observe, [(d, sts) for d, sts, _ in nets]))
+        specials = special_specs()
+        sres = list(ex.map(observe_special, specials))
 
     fails = []
     flat = []   # (net index, d, st, o)
@@ -383,6 +560,8 @@ def run(ctx):
                 ctx.dist['train_selection frozen'] += 1
             if st.get('ctor_hard'):
                 ctx.dist['hard selection requested only at construction (gumbel blocks: %s)' % sorted({b['gumbel'] for b in d['blocks']})] += 1
+            if o.get('re') is not None:
+                ctx.dist['export -> caller modifies the result -> export again'] += 1
             if st.get('mixed') and 'bn' in d['types']:
                 ctx.dist['export() with MIXED per-module modes (%s) on a network with BatchNorm' % st['mixed']] += 1
             if st.get('export_train'):
@@ -407,6 +586,12 @@ def run(ctx):
     ctx.exhaustive = False
     ctx.extra['exhaustive_part'] = 'every winner combination of the %d generated networks whose blocks have <= 4 branches (and of the corpus networks); networks and larger blocks are sampled' % exhaustive_nets
 
+    # the two open findings: hand-written networks outside the IR (skip around a block, statement-level in-place ops); oracle only
+    for spec, o in zip(specials, sres):
+        ctx.case(('special', spec['kind'], spec['variant'], tuple(spec['winners'])), nontrivial=True, kind='open-finding stream: ' + spec['kind'],
+                 sample=None)
+        check_special(spec, o, fails)
+    ctx.extra['open_finding_stream_cases'] = len(specials)
     for key, info in fails:
         ctx.violation(key, info, '%s: %s' % (key, info['what']))
 
@@ -488,6 +673,15 @@ def run(ctx):
 def replay(r):
     """re-executes the failing (network, coefficients) on the implementation"""
     print(json.dumps({k: v for k, v in r.items() if k not in ('desc', 'history')}, indent=1, default=str)[:2500])
+    if 'special' in r:
+        o = observe_special(r['special'])
+        fails = []
+        check_special(r['special'], o, fails)
+        print('required: exported(x) == SuperNet.eval()(x) with hard selection; exactly the winners\' and the outside layers remain')
+        print('observed:', o)
+        for key, info in fails:
+            print('FAILS:', key, '-', info['what'])
+        return 1 if fails else 0
     if 'desc' not in r or 'setting' not in r:
         print('no failing input in this replay file')
         return 1
